@@ -55,7 +55,12 @@ class Ctx:
             self.samples.append(case)
 
     def out_of_time(self):
-        return (time.monotonic() - self.t0) > self.budget_s
+        # the budget is CPU time of the worker (so that the number of cases explored does not
+        # depend on what else the machine is doing), with a wall-clock cap
+        if not hasattr(self, "cpu0"):
+            self.cpu0 = time.process_time()
+        return (time.process_time() - self.cpu0) > self.budget_s or \
+            (time.monotonic() - self.t0) > 4 * self.budget_s
 
     # -- verdict events
     def violation(self, key, detail, case=None, prop=None):
